@@ -343,7 +343,7 @@ func (cfg *Config) expArg(exp *syntax.Expansion) (string, error) {
 		syntax.LowerFirst, syntax.LowerAll:
 		return Pattern(cfg, exp.Word)
 	}
-	return Literal(cfg, exp.Word)
+	return literalKeepEscapes(cfg, exp.Word)
 }
 
 func removePattern(str, pat string, fromEnd, shortest bool) string {
@@ -410,7 +410,7 @@ func (cfg *Config) replaceElems(repl *syntax.Replace, elems []string) ([]string,
 	if orig == "" {
 		return elems, nil // nothing to replace
 	}
-	with, err := Literal(cfg, repl.With)
+	with, err := literalKeepEscapes(cfg, repl.With)
 	if err != nil {
 		return nil, err
 	}
